@@ -311,6 +311,7 @@ func x05Run(c *x05Case, work string) (*x05Out, error) {
 	var raw []x05Raw
 	lastIn := map[string]time.Time{}
 	var trigAt time.Time
+	preHS := false
 	rec := func(e x05Raw) {
 		e.at = time.Now()
 		mu.Lock()
@@ -412,6 +413,7 @@ func x05Run(c *x05Case, work string) (*x05Out, error) {
 			fired[i] = true
 			if trigAt.IsZero() {
 				trigAt = time.Now()
+				preHS = seen["s2c:CFG"] == 0 // the client still runs on its default 20 s time-out
 			}
 			mu.Unlock()
 			if done {
@@ -546,6 +548,7 @@ func x05Run(c *x05Case, work string) (*x05Out, error) {
 	evs := append([]x05Raw(nil), raw...)
 	lin := map[string]time.Time{"C": lastIn["C"], "V": lastIn["V"]}
 	trig := trigAt
+	pre0 := preHS
 	mu.Unlock()
 
 	// ---- projection onto spec events
@@ -777,6 +780,11 @@ func x05Run(c *x05Case, work string) (*x05Out, error) {
 			ms = end.Sub(from).Milliseconds()
 		}
 		tm := mk("time")
+		if role == "C" && pre0 {
+			tm["role"], tm["ms"], tm["bound"] = role, ms, int64(20000+1500+8000)
+			res = append(res, tm)
+			continue
+		}
 		tm["role"], tm["ms"], tm["bound"] = role, ms, bound
 		res = append(res, tm)
 	}
